@@ -441,6 +441,8 @@ func walkCheck(file []byte, s *shadow, maskCanvas bool) string {
 }
 
 // parserCheck: container.Parser (through GetFeatures / Decode) vs the demuxer.
+var observe func(string) // set by main: distribution counter for things C14 does not judge
+
 func parserCheck(file []byte, d *mux.Demuxer, s *shadow) (res string) {
 	defer func() {
 		if r := recover(); r != nil {
@@ -456,13 +458,16 @@ func parserCheck(file []byte, d *mux.Demuxer, s *shadow) (res string) {
 		ft.HasAlpha != df.HasAlpha || (df.HasAnimation && ft.LoopCount != d.LoopCount()) {
 		return fmt.Sprintf("GetFeatures %+v vs demuxer %+v frames=%d loop=%d", *ft, df, d.NumFrames(), d.LoopCount())
 	}
-	if !s.animated() {
+	if !s.animated() && observe != nil {
+		// webp.Decode also runs the pixel codec, which is not C14's subject: observed only
 		im, err := webp.Decode(bytes.NewReader(file))
-		if err != nil {
-			return "Decode rejects the assembled still file: " + err.Error()
-		}
-		if im.Bounds().Dx() != s.frames[0].item.W || im.Bounds().Dy() != s.frames[0].item.H {
-			return "Decode returns other dimensions than the frame put in"
+		switch {
+		case err != nil:
+			observe("observation: Decode rejects an assembled still file")
+		case im.Bounds().Dx() != s.frames[0].item.W || im.Bounds().Dy() != s.frames[0].item.H:
+			observe("observation: Decode returns other dimensions than the frame put in")
+		default:
+			observe("observation: Decode accepts the assembled still file")
 		}
 	}
 	return ""
@@ -777,6 +782,7 @@ func main() {
 		rng := c.Rng.Fork()
 		pool := muxh.BuildPool(rng.Fork(), 24)
 		g := &gen{rng: rng.Fork(), pool: pool}
+		observe = c.Count
 		c.D.Rule = "a case is non-trivial when Assemble succeeds; counted once per (class, layout, #frames, metadata subset, alpha/lossless mix, parity of payloads)"
 
 		total := 2500
@@ -836,21 +842,21 @@ func maskCanvasOf(v string) string {
 // okChecks: everything the property demands of a successfully assembled file.
 func okChecks(file []byte, dline string, dm *mux.Demuxer, sh *shadow, maskCanvas bool) string {
 	if w := walkCheck(file, sh, maskCanvas); w != "" {
-		return "container structure: " + w
+		return "clause (V) container structure: " + w
 	}
 	if dline == "panic" || dline == "err" {
-		return "demuxer " + dline + " on the assembled file"
+		return "clause (R) demuxer " + dline + " on the assembled file"
 	}
 	got, want := demuxView(dm), sh.view()
 	if maskCanvas {
 		got, want = maskCanvasOf(got), maskCanvasOf(want)
 	}
 	if got != want {
-		return "mux->demux differs: got " + got + " want " + want
+		return "clause (R) mux->demux differs: got " + got + " want " + want
 	}
 	if !maskCanvas {
 		if p := parserCheck(file, dm, sh); p != "" {
-			return p
+			return "clause (P) " + p
 		}
 	}
 	return ""
@@ -937,18 +943,14 @@ func frameLimit(c *Ctx, pool []muxh.PoolItem) {
 					accepted++
 				}
 			}
-			want := n
-			if want > 10000 {
-				want = 10000
-			}
-			if accepted != want {
-				c.Violate("frame-limit", fmt.Sprintf("%d AddFrame calls: %d accepted, the limit of both parsers is 10000", n, accepted), replay)
-			}
+			// How many frames the muxer accepts, and whether Assemble accepts them, is the muxer's
+			// business (C14 does not say what must be accepted or rejected, only that a rejection is
+			// an error): counted as observations.  The clause checked below: what IS assembled
+			// "demuxes back to the same frames" and "both container parsers report the same structure".
+			c.Count(fmt.Sprintf("observation: frame-limit %d calls -> %d accepted", n, accepted))
 			var buf bytes.Buffer
 			if err := m.Assemble(&buf); err != nil {
-				if accepted <= 10000 {
-					c.Violate("frame-limit", fmt.Sprintf("Assemble rejects %d accepted frames: %v", accepted, err), replay)
-				}
+				c.Count(fmt.Sprintf("observation: frame-limit Assemble rejects %d frames with an error", accepted))
 				return
 			}
 			d, err := mux.NewDemuxer(buf.Bytes())
@@ -1018,8 +1020,15 @@ func evalCase(c *Ctx, ops []op, kind string) {
 	}
 	if hasAS {
 		c.Count("with-assemble-calls")
-		if _, st2, file2 := runOps(plain); st2 != st || !bytes.Equal(file, file2) {
-			c.Violate("assemble-changes-state", fmt.Sprintf("final Assemble is %s (%d bytes) after earlier Assemble calls, %s (%d bytes) on a fresh Muxer with the same calls", st, len(file), st2, len(file2)), replay)
+		// "For every set of frames ... and metadata that the muxer accepts, the assembled file is a
+		// structurally valid container ...": whether the set is accepted is a property of the set
+		// (a fresh Muxer decides it), so a history that differs from it only by earlier Assemble
+		// calls must not fail on an accepted set.  Different bytes for the same accepted set are
+		// only counted: the round-trip checks below judge the bytes actually produced.
+		if _, st2, file2 := runOps(plain); st2 == "ok" && st != "ok" && sh.allValid() {
+			c.Violate("accepted-set-fails-after-assemble-call", fmt.Sprintf("a fresh Muxer accepts these frames/options/metadata (%d bytes); after earlier Assemble calls the same set ends in %q", len(file2), st), replay)
+		} else if st2 != st || !bytes.Equal(file, file2) {
+			c.Count("observation: result differs from a fresh Muxer fed the same calls")
 		}
 	}
 	// -- correspondence line 1: bytes + demuxer accessors
@@ -1056,31 +1065,37 @@ func evalCase(c *Ctx, ops []op, kind string) {
 	}
 	c.Case(fmt.Sprintf("rt %s %s", rtcls, ol), rt)
 
-	// -- direct evaluation
+	// -- direct evaluation.  Domain of C14: call sequences over frames that are VP8 / VP8L
+	// bitstreams (with or without alpha data) which the muxer accepts.  Clauses:
+	//   (V) "the assembled file is a structurally valid WebP container"
+	//   (R) "and demuxes back to the same frame bitstreams ... metadata"
+	//   (P) "Both container parsers in the package report the same structure for it"
+	//   (E) "what the muxer rejects it rejects with an error, not a corrupt file"
+	// Nothing says WHAT must be accepted or rejected; rejections are observations.
+	if cls == "invalid-frame" {
+		// frames that are not VP8/VP8L bitstreams: outside the domain.  Whatever happens is counted
+		// only (a demuxer panic on the bytes is C05's subject and C05's generators cover it).
+		c.Count("observation: invalid-frame history -> " + st)
+		if dline == "panic" {
+			c.Count("observation: demuxer panics on a file assembled from non-bitstream frames")
+		}
+		return
+	}
 	if st == "panic" {
-		c.Violate("assemble-panics", "Muxer history panics", replay)
+		// (E): neither an error nor a file
+		c.Violate("assemble-panics", "clause (E): the Muxer history ends in a panic instead of an error or a file", replay)
 		return
 	}
 	c.Count("assemble-" + st)
-	switch cls {
-	case "no-frames", "outside-canvas":
-		if st != "err" {
-			c.Violate("accepts-"+cls, "Assemble succeeds although the state must be rejected ("+cls+")", replay)
-		}
-		return
-	case "invalid-frame":
-		// no expectation beyond "no panic" (frames are not VP8/VP8L bitstreams)
-		if dline == "panic" {
-			c.Violate("demux-panics-on-assembled", "demuxer panics on an assembled file", replay)
-		}
+	if st == "err" {
+		c.Count("observation: rejected with an error, class " + cls)
 		return
 	}
-	if st == "err" {
-		// boundary classes may be rejected; the general class must be accepted
-		if cls == "general" || cls == "still-alph" {
-			// the only legitimate rejection here is a RIFF payload over 4 GB, impossible at these sizes
-			c.Violate("rejects-valid", "Assemble rejects a valid "+cls+" history", replay)
-		}
+	switch cls {
+	case "no-frames", "outside-canvas":
+		// accepted, but no file built from this state can be structurally valid (no image data /
+		// a frame extending beyond the canvas): clause (V)
+		c.Violate("accepted-but-structurally-invalid:"+cls, "clause (V): Assemble succeeds for a state ("+cls+") from which no structurally valid container can be built", replay)
 		return
 	}
 	if cls == "still-canvas" {
